@@ -177,12 +177,14 @@ def _region(r, L, ri):
     return 'regular'
 
 
-def _build_strength(theta, mask, mode, tmodel, jmodel, ri_mult, psi=PSI_DEG, nexp=N_SINGLE):
+def _build_strength(theta, mask, mode, tmodel, jmodel, ri_mult, psi=PSI_DEG, nexp=N_SINGLE, ntot=None):
     sm = StrengthModel()
     ri = None if ri_mult == 1 else ri_mult * B_
     sm.setDislocationParameters(G_, B_, NU_, ri, theta=theta, psi=psi)
-    if nexp != N_SINGLE:
-        sm.setStrengthSuperpositionExponent(singlePhaseExp=nexp, totalExp=nexp)
+    ntot = nexp if ntot is None else ntot
+    if nexp != N_SINGLE or ntot != N_SINGLE:
+        # the two superposition exponents are independent settings (single-phase contributions / total strength)
+        sm.setStrengthSuperpositionExponent(singlePhaseExp=nexp, totalExp=ntot)
     sm.setTmodel(tmodel)
     sm.setJfactor(jmodel)          # (after setDislocationParameters: the J factor is evaluated when it is selected)
     targets = {'all': [('all', PAR_ALL)], 'all->P1': [('all', PAR_ALL)], 'P1-only': [('P1', PAR_P1)],
@@ -208,6 +210,7 @@ def run_formulas(case):
     theta, mask, mode, tmodel, jmodel, ri_mult = (case['theta'], case['mask'], case['mode'], case['tmodel'],
                                                   case['jmodel'], case['ri'])
     psi, nexp = case.get('psi', PSI_DEG), case.get('exp', N_SINGLE)
+    ntot = case.get('exptot', nexp)
     viol, seen = [], set()
     tag = 'theta=%g contributions=%s mode=%s T=%s J=%s ri=%gb psi=%g exponent=%g' % (
         theta, '+'.join(LABELS[i] for i in range(5) if mask & (1 << i)) or 'none', mode, tmodel, jmodel, ri_mult, psi, nexp)
@@ -217,7 +220,7 @@ def run_formulas(case):
             seen.add(sig)
             viol.append({'sig': 'formulas/' + sig, 'msg': tag + ': ' + msg})
 
-    sm, query, active, par, ri = _build_strength(theta, mask, mode, tmodel, jmodel, ri_mult, psi, nexp)
+    sm, query, active, par, ri = _build_strength(theta, mask, mode, tmodel, jmodel, ri_mult, psi, nexp, ntot)
     R, L = [a.ravel() for a in np.meshgrid(np.array(R_LAT), np.array(L_LAT), indexing='ij')]
     npt = len(R)
     regions = [_region(R[k], L[k], ri) for k in range(npt)]
@@ -854,10 +857,16 @@ def run(ctx):
                         for ri in [1, 2]:
                             if mode == 'P1-only->P2' and mask not in (0, 1, 31):
                                 continue      # nothing acts on P2: three representative subsets
-                            for psi, nexp in ([(PSI_DEG, N_SINGLE)] if quick else [(PSI_DEG, N_SINGLE), (60.0, 1.0), (150.0, 2.5)]):
+                            # (psi, single-phase exponent, total exponent); the two exponents are independent settings, so
+                            # unequal pairs are part of the alphabet (quick: on the all-contributions / none subsets only)
+                            if quick:
+                                levels = [(PSI_DEG, N_SINGLE, N_SINGLE)] + ([(PSI_DEG, 2.5, 1.0), (PSI_DEG, 1.0, 2.5)] if mask in (0, 31) else [])
+                            else:
+                                levels = [(PSI_DEG, N_SINGLE, N_SINGLE), (60.0, 1.0, 1.0), (150.0, 2.5, 2.5), (PSI_DEG, 2.5, 1.0), (PSI_DEG, 1.0, 2.5)]
+                            for psi, nexp, ntot in levels:
                                 c = {'theta': theta, 'mask': mask, 'mode': mode, 'tmodel': tmodel, 'jmodel': jmodel, 'ri': ri}
-                                if (psi, nexp) != (PSI_DEG, N_SINGLE):
-                                    c['psi'], c['exp'] = psi, nexp
+                                if (psi, nexp, ntot) != (PSI_DEG, N_SINGLE, N_SINGLE):
+                                    c['psi'], c['exp'], c['exptot'] = psi, nexp, ntot
                                 fcases.append(c)
     ctx.product_run('formulas', 'checks.c18:run_formulas', fcases)
     # ---- multiphase
